@@ -315,3 +315,220 @@ class MakeParamsDict(Contract):
 
 
 CONTRACTS.append(MakeParamsDict())
+
+
+# ----------------------------------------------------------------------------------------- the method table of a route
+import ast as _ast
+from pyvc.engine import VPy as VPy_, Val   # noqa: E402
+
+
+class KeySet(Val):
+    """set(<dict>) / set(<list of names>): only intersection and truthiness are used"""
+
+    def __init__(self, member):      # member: z3 String -> z3 Bool ; names: concrete list of z3 strings or None
+        self.member = member
+        self.names = None
+
+    def truth(self, X):
+        if getattr(self, 'nonempty', None) is not None:
+            return self.nonempty
+        raise Unsupported('truthiness of an unbounded set')
+
+
+class _MethodTable(Contract):
+    props = ('C02',)
+    file = 'ombott/router/radirouter.py'
+    assumptions = ('the method table is a dict name -> RouteMethod; checked for method lists of length 1 and 2 and a single str '
+                   '(RadiRouter.add passes the upper-cased list of the registration: any length behaves like repeated length 1)',)
+
+    def table_pre(self, X):
+        K = StrSort
+        self.has0 = X.fresh(z3.ArraySort(K, z3.BoolSort()), 'registered')
+        self.val0 = X.fresh(z3.ArraySort(K, PyObj), 'handlers')
+        self.m = VMap(self.has0, self.val0, lambda v: v.t, lambda t: VOpaque(t, 'route_method'), lambda v: v.t)
+        self.route_method = X.driver.uf('RouteMethod', StrSort, PyObj, PyObj)     # (name, handler) -> the new entry
+        n = X.choose(3, 'method argument: str | [m] | [m1, m2]')
+        self.names = [X.fresh_str(f'meth{i}') for i in range(max(n, 1))]
+        self.arg = self.names[0] if n == 0 else VList(list(self.names))
+        self.handler = VOpaque(X.fresh(PyObj, 'handler'), 'handler')
+        self.me = VObj('Route', {'_methods': self.m, 'rule': VStr('/r')})
+        self.RouteMethodError = X.globals['RouteMethodError']
+
+    def construct_hook(self, X, pyclass, args, kwargs):
+        if getattr(pyclass, '__name__', '') == 'RouteMethod':
+            route, name, handler = args[0], args[1], args[2]
+            X.prove('entry.bound_to_this_route_name_and_handler', z3.And(z3.BoolVal(route is self.me), handler.t == self.handler.t))
+            return VOpaque(self.route_method(name.t, handler.t), 'route_method')
+        if pyclass is set and len(args) == 1:
+            a = args[0]
+            if isinstance(a, VMap):
+                ks = KeySet(lambda k, _m=a: z3.Select(_m.has, k))
+                return ks
+            if isinstance(a, VList):
+                ks = KeySet(lambda k, _l=a: z3.Or(*[k == i.t for i in _l.items]))
+                ks.names = [i.t for i in a.items]
+                return ks
+        return None
+
+    def binop_hook(self, X, op, a, b):
+        if isinstance(op, _ast.BitAnd) and isinstance(a, KeySet) and isinstance(b, KeySet):
+            finite = a if a.names is not None else b
+            other = b if finite is a else a
+            if finite.names is None:
+                raise Unsupported('intersection of two unbounded sets')
+            r = KeySet(lambda k: z3.And(a.member(k), b.member(k)))
+            r.nonempty = z3.Or(*[other.member(n) for n in finite.names])
+            r.names = finite.names
+            return r
+        return None
+
+    def genexp_hook(self, X, node):
+        # {m: self._methods[m].handler_fullname for m in registered}  (error message only)   /   [self._methods.pop(m, None) for m in method]
+        (g,) = node.generators
+        if isinstance(node, _ast.DictComp):
+            return VOpaque(X.fresh(PyObj, 'names_for_message'), 'msg')
+        src = X.eval(g.iter)
+        call = node.elt
+        ok = (isinstance(src, VList) and isinstance(call, _ast.Call) and isinstance(call.func, _ast.Attribute) and call.func.attr == 'pop'
+              and _ast.unparse(call.func.value) == 'self._methods' and len(call.args) == 2 and isinstance(g.target, _ast.Name)
+              and _ast.unparse(call.args[0]) == g.target.id)
+        if not ok:
+            raise Unsupported('list comprehension is not the per-name pop')
+        for item in src.items:
+            X.env[g.target.id] = item
+            X.eval(call)
+        return VOpaque(X.fresh(PyObj, 'popped'), 'list')
+
+    def builtin_hook(self, X, name, args, kwargs):
+        return None
+
+    def getattr_hook(self, X, obj, attr):
+        if isinstance(obj, VPy_) and attr == 'get_func_fullname':
+            return VFunc(lambda X2, a, k: X2.fresh_str('fullname'), 'get_func_fullname')
+        return None
+
+    def table_after_set(self):
+        has, val = self.has0, self.val0
+        for n in self.names:
+            has = z3.Store(has, n.t, z3.BoolVal(True))
+            val = z3.Store(val, n.t, self.route_method(n.t, self.handler.t))
+        return has, val
+
+    def unchanged(self):
+        return z3.And(self.m.has == self.has0, self.m.val == self.val0)
+
+
+
+
+class SetMethod(_MethodTable):
+    qualname = 'Route.set_method'
+    expected_labels = ('post.exactly_the_named_entries_replaced',)
+
+    def pre(self, X):
+        self.table_pre(X)
+        c = self
+
+        def _set_methods(X, args, kwargs):
+            # callee contract (proved below as Route._set_methods): binds every listed name, nothing else
+            me, methods, handler = args[0], args[1], args[2]
+            X.prove('call.set_methods_with_the_list', z3.BoolVal(isinstance(methods, VList) and [i.t for i in methods.items] == [n.t for n in c.names]
+                                                                 and handler is c.handler))
+            has, val = c.table_after_set()
+            c.m.has, c.m.val = has, val
+            return NONE
+        self.stubs = {'Route._set_methods': _set_methods}
+        return {'self': self.me, 'method': self.arg, 'handler': self.handler, 'meta': NONE}
+
+    def post(self, X, ret):
+        has, val = self.table_after_set()
+        X.prove('post.exactly_the_named_entries_replaced', z3.And(self.m.has == has, self.m.val == val))
+
+
+class SetMethods(_MethodTable):
+    qualname = 'Route._set_methods'
+    expected_labels = ('post.exactly_the_named_entries_bound',)
+
+    def pre(self, X):
+        self.table_pre(X)
+        if not isinstance(self.arg, VList):
+            self.arg = VList([self.names[0]])
+        return {'self': self.me, 'methods': self.arg, 'handler': self.handler, 'meta': NONE}
+
+    def post(self, X, ret):
+        has, val = self.table_after_set()
+        X.prove('post.exactly_the_named_entries_bound', z3.And(self.m.has == has, self.m.val == val))
+
+
+class AddMethod(_MethodTable):
+    qualname = 'Route.add_method'
+    expected_labels = ('post.added_only_when_none_was_registered', 'raise.refused_iff_some_name_registered_and_table_unchanged')
+
+    def pre(self, X):
+        self.table_pre(X)
+        c = self
+
+        def _set_methods(X, args, kwargs):
+            has, val = c.table_after_set()
+            c.m.has, c.m.val = has, val
+            return NONE
+
+        def _raise_if_registered(X, args, kwargs):
+            # callee contract (proved below): raises RouteMethodError iff one of the names is registered; changes nothing
+            if X.decide(z3.Or(*[z3.Select(c.has0, n.t) for n in c.names])):
+                X.raise_(c.RouteMethodError, 'registered')
+            return NONE
+        self.stubs = {'Route._set_methods': _set_methods, 'Route._raise_if_registered': _raise_if_registered}
+        return {'self': self.me, 'method': self.arg, 'handler': self.handler, 'meta': NONE}
+
+    def clash(self):
+        return z3.Or(*[z3.Select(self.has0, n.t) for n in self.names])
+
+    def post(self, X, ret):
+        has, val = self.table_after_set()
+        X.prove('post.added_only_when_none_was_registered', z3.And(z3.Not(self.clash()), self.m.has == has, self.m.val == val))
+
+    def post_raise(self, X, exc):
+        X.prove('raise.refused_iff_some_name_registered_and_table_unchanged',
+                z3.And(z3.BoolVal(exc.pyclass is self.RouteMethodError), self.clash(), self.unchanged()))
+
+
+class RaiseIfRegistered(_MethodTable):
+    qualname = 'Route._raise_if_registered'
+    expected_labels = ('post.silent_only_without_clash', 'raise.iff_some_name_registered')
+
+    def pre(self, X):
+        self.table_pre(X)
+        if not isinstance(self.arg, VList):
+            self.arg = VList([self.names[0]])
+        self.stubs = {'RouteMethod.get_func_fullname': lambda X, a, k: X.fresh_str('fullname')}
+        return {'self': self.me, 'method': self.arg, 'candidate': self.handler}
+
+    def clash(self):
+        return z3.Or(*[z3.Select(self.has0, n.t) for n in self.names])
+
+    def post(self, X, ret):
+        X.prove('post.silent_only_without_clash', z3.And(z3.Not(self.clash()), self.unchanged()))
+
+    def post_raise(self, X, exc):
+        X.prove('raise.iff_some_name_registered', z3.And(z3.BoolVal(exc.pyclass is self.RouteMethodError), self.clash(), self.unchanged()))
+
+
+class RemoveMethod(_MethodTable):
+    qualname = 'Route.remove_method'
+    expected_labels = ('post.exactly_the_named_entries_removed',)
+
+    def pre(self, X):
+        self.table_pre(X)
+        return {'self': self.me, 'method': self.arg}
+
+    def post(self, X, ret):
+        has = self.has0
+        for n in self.names:
+            has = z3.Store(has, n.t, z3.BoolVal(False))
+        k = z3.Const('k!rm', StrSort)
+        others = z3.ForAll([k], z3.Implies(z3.And(*[k != n.t for n in self.names]),
+                                           z3.Select(self.m.val, k) == z3.Select(self.val0, k)))
+        X.prove('post.exactly_the_named_entries_removed', z3.And(self.m.has == has, others))
+
+
+CONTRACTS += [SetMethod(), SetMethods(), AddMethod(), RaiseIfRegistered(), RemoveMethod()]
